@@ -112,14 +112,49 @@ def length_facts(F, f):
     return out
 
 
+def _from_arg(x):
+    """argument of a lossless widening conversion written as a call (`u64::from(b)`, `usize::from(b)`, `.into()`), else None"""
+    if x[0] == 'call' and x[2] and len(x[2]) == 1 and re.search(r'(^|::)(from|into)$', x[1]) and re.search(r'\b(u8|u16|u32|u64|usize)\b', x[1]):
+        return x[2][0]
+    return None
+
+
+def range_indexed(f, idx):
+    """S when `idx` is the value produced by `(0..len(S)).next()` -- the index of `for i in 0..s.len()` -- else None"""
+    x = strip(idx)
+    hops = 0
+    while x[0] in ('field', 'variant', 'cast') and hops < 4:
+        x = strip(x[1] if x[0] != 'cast' else (x[2] if len(x) > 2 and isinstance(x[2], tuple) else x[1]))
+        hops += 1
+    if not (x[0] == 'call' and x[1].endswith('::next') and 'Range' in x[1] and x[2]):
+        return None
+    r = strip(x[2][0])
+    if r[0] == 'var':
+        # the range local: its single aggregate definition
+        ds = [d for d in f.defs.get(r[1], []) if d[0] == 's']
+        r = strip(f.expr_of_rvalue(ds[0][3])) if len(ds) == 1 else r
+    if r[0] == 'call' and r[1].endswith('::into_iter') and r[2]:
+        r = strip(r[2][0])
+    if r[0] == 'aggr' and 'Range' in str(r[2]) and len(r[3]) == 2:
+        lo, hi = r[3]
+        if const_of(lo) == 0:
+            return len_source(hi)
+    return None
+
+
 def shape(e):
     x = strip(e)
+    fa = _from_arg(x)
+    if fa is not None:
+        return shape(fa)
     k = const_of(x)
     if k is not None:
         return 'c%d' % k
     if len_source(x) is not None:
         return 'len'
     if x[0] == 'field':
+        if str(x[3]) == '0' and str(x[2]).startswith(('std::option::Option', 'core::option::Option')):
+            return 'v'  # the payload of `Some(..)`: a value bound by a pattern (`for &d in src`), like any other variable
         return 'f:' + x[3]
     if x[0] == 'index':
         return 'elem'
@@ -164,6 +199,8 @@ def sites(F):
                         good = [ed for ed, S2, lb in facts if S2 == S and lb > c]
                         if good and f.dominated_by_edges(bi, good):
                             st = 'auto:length-test-dominates'
+                    elif idx is not None and S is not None and range_indexed(f, idx) == S:
+                        st = 'auto:index-from-range-over-len'
                     yield {'fn': name, 'f': f, 'bi': bi, 'kind': 'bounds', 'sig': 'idx=%s' % (('c%d' % c) if c is not None else shape(idx) if idx is not None else '?'), 'status': st,
                            'need': 'len(%s) > %s' % (core.show(S)[:40] if S is not None else '?', c)}
                 elif kind == 'Overflow':
@@ -185,7 +222,7 @@ def sites(F):
                             y = y[1]
                         if y[0] == 'bin':
                             a, b2 = y[2], y[3]
-                            sig = '%s(%s,%s)' % (op, shape(a), shape(b2))
+                            sig = ('%s(%s,%s)' % (op, shape(a), shape(b2))).replace('elem', 'v')
                             ca, cb = const_of(a), const_of(b2)
                             if ca is not None and cb is not None:
                                 st = 'auto:const-fold'
